@@ -23,10 +23,14 @@ def load():
 
 
 def for_property(pid, status=None):
-    return [e for e in load() if e["property"] == pid and (status is None or e["status"] == status)]
+    return [e for e in load() if (e["property"] == pid or pid in e.get("also", ()))
+            and (status is None or e["status"] == status)]
 
 
-def sig_matches(entry, failure):
+def sig_matches(entry, failure, pid=None):
+    by = entry.get("sig_re_by_property", {})
+    if pid in by:
+        return re.fullmatch(by[pid], failure.sig, flags=re.S) is not None
     if "sig_re" in entry:
         return re.fullmatch(entry["sig_re"], failure.sig, flags=re.S) is not None
     return entry.get("sig") == failure.sig
@@ -37,7 +41,7 @@ def match(mod, subname, case, failure):
     for e in for_property(mod.PROPERTY_ID, "known"):
         if e.get("subcheck") and e["subcheck"] != subname:
             continue
-        if not sig_matches(e, failure):
+        if not sig_matches(e, failure, mod.PROPERTY_ID):
             continue
         cls = e.get("class")
         if cls:
